@@ -19,7 +19,11 @@
   every iteration of an enclosing loop — between a discriminant read of `v` and a binding extraction
   from `v` that follows it (no other discriminant read of `v` in between) nothing writes, drops or
   moves `v`: the bindings of every arm, however many guards ran before it, are components of the
-  value that was switched on. Core Lean only.
+  value that was switched on.
+
+  A second checker, `argumentsAreConsumed` (below), reads three more facts off every node — `uses`,
+  `defs`, `hands` — and accepts an item when a record / enum / owned value handed to a call is never
+  used again before it is assigned anew: a parameter is a copy of its own. Core Lean only.
 -/
 namespace RotoV.ValueMir
 
